@@ -334,17 +334,21 @@ def minimise(mod, case, signature, budget_s=10):
     progress = True
     while progress and time.time() - t0 < budget_s:
         progress = False
-        for cand in shrink(cur):
-            if time.time() - t0 > budget_s:
-                break
-            try:
-                r = mod.run_case(cand)
-            except Exception:
-                continue
-            if any(s == signature for s, _ in r.violations):
-                cur = cand
-                progress = True
-                break
+        try:
+            for cand in shrink(cur):
+                if time.time() - t0 > budget_s:
+                    break
+                try:
+                    r = mod.run_case(cand)
+                except Exception:
+                    continue
+                if any(s == signature for s, _ in r.violations):
+                    cur = cand
+                    progress = True
+                    break
+        except Exception:
+            # a shrinker that cannot handle this kind of case must not hide the finding: report it unshrunk
+            break
     return cur
 
 
